@@ -316,8 +316,11 @@ def tree_digest(root, sub, exts=('.py',)):
 def cache_base(repo, budget, opts, carves):
     h = hashlib.sha256()
     h.update(tree_digest(repo, 'yatiml').encode())
-    for sub in ('pyvc', 'spec', 'contracts', 'checks'):
+    for sub in ('pyvc', 'spec', 'contracts'):
         h.update(tree_digest(VERIF, sub).encode())
+    for f in ('checks/main.py', 'checks/worker.py'):
+        with open(os.path.join(VERIF, f), 'rb') as fh:
+            h.update(hashlib.sha256(fh.read()).hexdigest().encode())
     h.update(json.dumps([budget, opts or {}, carves or {}],
                         sort_keys=True, default=str).encode())
     return h.hexdigest()[:24]
